@@ -57,11 +57,38 @@ theorem table_length (π : List Decl → List Decl) (hπ : ∀ ds, (π ds).Perm 
     (findRedirectsWith π t).length = (annotations t).length :=
   (exactly_once π hπ t).length_eq
 
-/-- **ignored_content** — the annotations of a tree do not change when everything the property
-says is ignored is deleted: the whole content of test files and of files not named `*.go`, doc
-comments of declarations that are not functions, every comment outside a top-level doc group
-(bodies, fields, free-standing, trailing), and doc comments without the directive prefix. -/
-theorem ignored_content (t : Tree) : annotations (stripList t) = annotations t :=
+/-- **nothing_else** — an entry is in the table if and only if some non-test `.go` file of the
+tree (`isSourceFile`, at directories `ds` below the root) declares a function `fn` whose doc
+group contains a comment `text` that starts with the directive, the entry's source is the rest
+of that comment with surrounding white space removed, and its destination is
+`pkgPrefix/ds….fn`.  So nothing in the table comes from a test file, a non-function, a body or
+a free-standing comment. -/
+theorem nothing_else (π : List Decl → List Decl) (hπ : ∀ ds, (π ds).Perm ds) (t : Tree) (e : Redirect) :
+    e ∈ findRedirectsWith π t ↔
+      ∃ ds f fn doc text, FileAt t ds f ∧ isSourceFile f.name = true ∧ Decl.func fn doc ∈ f.decls ∧
+        text ∈ doc ∧ directiveSrc text = some e.1 ∧ e.2 = qualify ds fn := by
+  rw [(exactly_once π hπ t).mem_iff, mem_annotations_iff]
+  constructor
+  · rintro ⟨ds, f, hf, hm⟩
+    obtain ⟨hs, fn, doc, text, h⟩ := (mem_fileAnnotations_iff ds f e).1 hm
+    exact ⟨ds, f, fn, doc, text, hf, hs, h⟩
+  · rintro ⟨ds, f, fn, doc, text, hf, hs, h⟩
+    exact ⟨ds, f, hf, (mem_fileAnnotations_iff ds f e).2 ⟨hs, fn, doc, text, h⟩⟩
+
+/-- **ignored_content** — the table (entries *and* order) does not change when everything the
+property says is ignored is deleted from the tree (`stripList`): the whole content of test files
+and of files not named `*.go`, doc comments of declarations that are not functions, every
+comment outside a top-level doc group (bodies, fields, free-standing, trailing), and doc
+comments without the directive prefix. -/
+theorem ignored_content (π : List Decl → List Decl) (t : Tree) :
+    findRedirectsWith π (stripList t) = findRedirectsWith π t := by
+  unfold findRedirectsWith declOrder
+  simp only [no_map_range, Bool.false_eq_true, if_false]
+  exact findRedirectsOrd_id_strip t
+
+/-- the same at the level of the specification: the annotations of a tree are those of the
+stripped tree -/
+theorem annotations_ignore (t : Tree) : annotations (stripList t) = annotations t :=
   listAnnotations_strip [] t
 
 /-- an annotation is the directive prefix followed by the source symbol; the entry carries the
